@@ -366,7 +366,10 @@ def check_property(pid, tier, harnesses, seed=0):
                         break
                     continue
                 rc, lines, err = run_native(b, s["model"], work, "d%d" % i)
-                if rc == 0 and lines == want:
+                # a sampled path may legitimately contain a failed assertion (a known finding): the traces must
+                # still agree line by line, and the native exit code must say the same
+                want_rc = 1 if any(t.startswith("F ") for t in want) else 0
+                if rc == want_rc and lines == want:
                     validated += 1
                 else:
                     problems.append("%s: native trace differs from symbolic trace for a sampled path (rc=%s)\n  model=%s\n  symx  =%s\n  native=%s %s" % (
